@@ -153,8 +153,9 @@ def tmpl(name):
 
 # ----------------------------------------------------------------------------------------------- one case
 class Case:
-    def __init__(self, names, stop='eof', cut=None, mode='transaction', cache=0, roles=(0,), paused=None, sym_status=False, plugins=False, shards=None, custom=False, params=None, second=None, second_params=None, idle_timeout=False, stmt_timeout=False, shutdown=False, checkout_failures=0, regex=False, pool_parser=None):
+    def __init__(self, names, stop='eof', cut=None, mode='transaction', cache=0, roles=(0,), paused=None, sym_status=False, plugins=False, shards=None, custom=False, params=None, second=None, second_params=None, idle_timeout=False, stmt_timeout=False, shutdown=False, checkout_failures=0, regex=False, pool_parser=None, reload_before=None):
         self.names = list(names)
+        self.reload_before = reload_before   # None or k: a RELOAD re-creates the pool (new config_hash, same definition otherwise) while the client is idle before message k
         self.pool_parser = pool_parser  # None or 'primary' | 'replica': the POOL has the query parser on and that default_role (sessions here switch it off with SET SERVER ROLE first)
         self.regex = regex            # shard_id_regex / sharding_key_regex configured (the patterns of the example configuration): routing by comment
         self.stop = stop              # 'eof' | 'X' | 'drop' (the whole socket is gone after the last message: reads hit EOF AND writes fail)
@@ -191,6 +192,7 @@ class Case:
         s += '' if not self.shards else '/shards:%s' % (self.shards,)
         s += '/comment-routing' if self.regex else ''
         s += '/pool-parser-default-%s' % self.pool_parser if self.pool_parser else ''
+        s += '/reload-before:%d' % self.reload_before if self.reload_before is not None else ''
         s += ('/plugins' if self.plugins is True else '/plugins:%s' % self.plugins) if self.plugins else ''
         return s
 
@@ -267,6 +269,7 @@ def run_case(chk, ob, ip, prog, case, props, extra_judge=None):
                            boundaries=[sum(len(mm) for mm in msgs[:k]) for k in range(len(msgs) + 1)],
                            idle_timeout_ms=(400 if case.idle_timeout else 0), statement_timeout_ms=(500 if case.stmt_timeout else 0), shutdown=case.shutdown,
                            checkout_failures=case.checkout_failures)
+        env.reload_before = case.reload_before
         if case.cache:
             def give_cache(b):
                 setf(prog, b.server, 'Server', 'prepared_statement_cache', some(ip_, lru([], case.cache)))
@@ -446,6 +449,10 @@ def run_case(chk, ob, ip, prog, case, props, extra_judge=None):
                 cmd.pop('roles', None)
             if case.custom:
                 cmd['custom'] = True
+            if case.reload_before is not None:
+                bounds_ = [sum(len(mm) for mm in msgs[:k]) for k in range(len(msgs) + 1)]
+                pos_ = bounds_[case.reload_before]
+                cmd['steps'] = [{'send_hex': hexs[:2 * pos_]}, {'sleep_ms': 150}, {'reload_pool': True}, {'send_hex': hexs[2 * pos_:]}]
             if case.pool_parser:
                 cmd['query_parser'] = True
                 cmd['default_role'] = case.pool_parser
